@@ -136,6 +136,33 @@ class Rewriter:
             text = text[:m.start()] + self.pad("", dropped) + text[after + endoff:]
             self.count("R4 cfg dropped")
 
+    def debug_guards(self, text):
+        """R1: `let mut debug_on_return = scoped_debug_return!(..);` and `*debug_on_return = false;`"""
+        pat = re.compile(r"let\s+mut\s+(\w+)\s*=\s*scoped_debug_return\s*!\s*\(")
+        while True:
+            m = pat.search(text)
+            if not m:
+                break
+            toks = tokenize(text[m.end() - 1:])
+            e = match_close(toks, 0)
+            end = m.end() - 1 + toks[e].end
+            m2 = re.compile(r"\s*;").match(text, end)
+            end = m2.end() if m2 else end
+            var = m.group(1)
+            text = text[:m.start()] + self.pad("", text[m.start():end]) + text[end:]
+            text, n = re.subn(r"\*\s*%s\s*=\s*false\s*;" % var, "", text)
+            self.count("R1 scoped_debug_return guard deleted", 1 + n)
+        return text
+
+    def tag_literals(self, text):
+        """R3b: every string literal "policy-..." is a policy tag id"""
+        def f(m):
+            t = tag_const(m.group(0))
+            self.tags.add(t)
+            self.count("R3 policy tag literal -> tag id")
+            return t
+        return re.sub(r'"policy-[a-z0-9\-]+"', f, text)
+
     def macros(self, text):
         """R1, R2, R3, R7 on macro invocations (innermost-last by repeated search)."""
         pos = 0
@@ -165,8 +192,11 @@ class Rewriter:
                 self.count("R2 function-name macro -> vx_msg()")
             elif name in ("policy_err", "temporary_policy_err"):
                 args = split_top_commas(self.macros(inner))
-                tag = tag_const(args[1])
-                self.tags.add(tag)
+                if args[1].strip().startswith('"'):
+                    tag = tag_const(args[1])
+                    self.tags.add(tag)
+                else:
+                    tag = args[1].strip()      # a tag expression (already a tag id after R3b)
                 obj = args[0]
                 fn = "vx_policy_err" if name == "policy_err" else "vx_temporary_policy_err"
                 repl = "%s(&%s, %s)?" % (fn, obj, tag)
@@ -189,6 +219,10 @@ class Rewriter:
                 repl = "if (%s) == (%s) { vx_abort(); }" % (args[0], args[1])
                 stmt = "block"
                 self.count("R7 assert_ne! -> abort guard")
+            elif name == "catch_panic":
+                args = split_top_commas(self.macros(inner))
+                repl = "vx_catch_panic(%s)?" % args[0]
+                self.count("R14 catch_panic!(e, ..) -> vx_catch_panic(e)? (Err models a caught panic)")
             elif name in ABORT_MACROS:
                 repl = "vx_abort()"
                 self.count("R7 %s! -> vx_abort()" % name)
@@ -398,15 +432,24 @@ class Unit:
 
     # ------------------------------------------------------------------
     def do_const(self, spec, org):
-        parts = [p.strip() for p in spec.split("::")]
-        rel, name = parts[0], parts[1]
-        ctx = parts[2] if len(parts) > 2 else None
+        mo = re.match(r"(\S+)\s*::\s*(\w+)\s*(.*)$", spec)
+        rel, name = mo.group(1), mo.group(2)
+        copts = parse_opts(mo.group(3))
+        ctx = copts.get("ctx")
         f = self.rf(rel)
         it = f.find_const(name, ctx)
         if it is None:
             raise ExtractError("anchor lost: const %s in %s" % (name, rel))
         rw = Rewriter(self.log, self.tags)
         text = strip_comments(f.src[it.start:it.end])
+        if copts.get("expect"):
+            # the initialiser must be literally the expected expression; it is emitted as the given
+            # literal (the template proves literal == expression)
+            mm = re.search(r"=\s*(.*?)\s*;\s*$", text, re.S)
+            if not mm or norm(mm.group(1)) != norm(copts["expect"]):
+                raise ExtractError("anchor lost: const %s initialiser is not `%s`" % (name, copts["expect"]))
+            text = text[:mm.start(1)] + copts["as"] + text[mm.end(1):]
+            rw.count("R9 const %s initialiser `%s` written as literal %s" % (name, copts["expect"], copts["as"]))
         text = rw.apply_maps(text, self.maps, "const")
         text = re.sub(r"\bpub\s*\(\s*crate\s*\)", "pub", text)
         line0 = f.line_of(it.start)
@@ -493,7 +536,7 @@ class Unit:
         fn_log = {}
         rw = Rewriter(fn_log, self.tags)
         # split template block into contract, loops, proofs, subs
-        contract, loops, proofs, subs = [], {}, [], []
+        contract, loops, proofs, subs, sigsubs = [], {}, [], [], []
         cur = ("contract", None)
         for ln, lorg in block:
             s = ln.strip()
@@ -508,6 +551,8 @@ class Unit:
                     raise ExtractError("bad //@proof directive: " + s)
                 proofs.append({"where": pm.group(1), "re": pm.group(2), "lines": [], "org": lorg})
                 cur = ("proof", len(proofs) - 1)
+            elif s.startswith("//@sigsub"):
+                sigsubs.append(parse_map(s[len("//@sigsub"):]))
             elif s.startswith("//@sub"):
                 subs.append(parse_map(s[len("//@sub"):]))
             elif s.startswith("//@"):
@@ -525,6 +570,11 @@ class Unit:
         sig = rw.attrs(sig)
         sig = rw.apply_maps(sig, self.maps, "sig")
         sig = re.sub(r"\bpub\s*\(\s*(crate|super)\s*\)", "pub", sig)
+        for rx, repl in sigsubs:
+            sig, nsub = rx.subn(repl, sig)
+            if nsub == 0:
+                raise ExtractError("anchor lost: //@sigsub /%s/ in %s" % (rx.pattern, name))
+            rw.count("MANUAL sigsub /%s/ => %s" % (rx.pattern, repl), nsub)
         sig = self.name_return(sig, ret)
         mut_self = False
         if re.search(r"\(\s*mut\s+self\b", sig):
@@ -555,7 +605,9 @@ class Unit:
         body = rw.cfg_select(body)
         body = rw.attrs(body)
         body = rw.drop_use_lines(body)
+        body = rw.debug_guards(body)
         body = rw.macros(body)
+        body = rw.tag_literals(body)
         if not opts.get("noabort"):
             body = rw.methods(body)
             body = rw.unwraps(body)
@@ -756,7 +808,9 @@ class Unit:
         suffix = "_canary" if canary else ""
         path = os.path.join(outdir, self.name + suffix + ".rs")
         lines = []
-        for ln, org in self.out:
+        for k, (ln, org) in enumerate(self.out):
+            if k == 0:
+                ln = "#![allow(non_upper_case_globals, unused_imports, unused_variables, dead_code, unused_mut, unused_parens, unused_braces)] " + ln
             if ln.startswith("//@@CANARY"):
                 lines.append("proof { assert(false); } " + ln if canary else ln)
             else:
